@@ -368,8 +368,9 @@ pub struct EntriesIter {
     // Stack of entry iterators for current directories being iterated over
     iters: Vec<EntryIter>,
 
-    // Stack of deferred directories to return after their contents
-    deferred: Vec<VfsEntry>,
+    // Stack of deferred directories to return after their contents, `None` marks a directory
+    // that was traversed but isn't yielded as it is above the minimum depth
+    deferred: Vec<Option<VfsEntry>>,
 
     // Optional filter that yields only entries that match the predicate
     #[allow(clippy::type_complexity)]
@@ -418,12 +419,16 @@ impl EntriesIter {
 
         // Return None if min depth marker is not satisfied
         if depth < self.opts.min_depth {
+            // Keep the deferred stack in step with the traversal stack
+            if entry.is_dir() && self.opts.contents_first {
+                self.deferred.push(None);
+            }
             return None;
         }
 
         // Defer directories as directed
         if entry.is_dir() && self.opts.contents_first {
-            self.deferred.push(entry);
+            self.deferred.push(Some(entry));
             return None;
         }
 
@@ -483,10 +488,12 @@ impl Iterator for EntriesIter {
         while !self.iters.is_empty() {
             // Return deferred directories if we've already processed their children
             if self.opts.contents_first && self.iters.len() < self.deferred.len() {
-                if let Some(entry) = self.deferred.pop() {
+                if let Some(deferred) = self.deferred.pop() {
                     // Deferred directories are subject to the filter like everything else
-                    if self.filter.as_mut().map_or(true, |filter| (filter)(&entry)) {
-                        return Some(Ok(entry));
+                    if let Some(entry) = deferred {
+                        if self.filter.as_mut().map_or(true, |filter| (filter)(&entry)) {
+                            return Some(Ok(entry));
+                        }
                     }
                     continue;
                 }
@@ -512,7 +519,7 @@ impl Iterator for EntriesIter {
 
         // Return root directory for deferred case
         while self.opts.contents_first && self.iters.len() < self.deferred.len() {
-            if let Some(entry) = self.deferred.pop() {
+            if let Some(Some(entry)) = self.deferred.pop() {
                 if self.filter.as_mut().map_or(true, |filter| (filter)(&entry)) {
                     return Some(Ok(entry));
                 }
